@@ -24,7 +24,7 @@ theorem TInv.frame {s s' : St} {t' : Tid} {pc' : PC} (h : TInv s t' pc')
     (hdis : ∀ e, s.hp t' = some e → s'.disposed e = s.disposed e)
     (hhome : ∀ e a, s.home e = some a → s'.home e = some a) :
     TInv s' t' pc' := by
-  obtain ⟨a1,a2,a3,a4,a5,a6,a7,a8,a8',a9,a10,a11,a12,a13,a14,a15,a16,a17,a18,a19,a20,a21⟩ := h
+  obtain ⟨a1,a2,a3,a4,a5,a6,a7,a8,a8',a9,a10,a11,a12,a13,a14,a15,a16,a17,a18,a19,a20,a21,a22⟩ := h
   constructor
   · intro a ha; rw [hlk]; exact a1 a ha
   · intro a b hab; rw [hlk, hlt]; exact a2 a b hab
@@ -48,6 +48,7 @@ theorem TInv.frame {s s' : St} {t' : Tid} {pc' : PC} (h : TInv s t' pc')
   · intro e; rw [hhp, hhv, hitn]; intro he hv hm; exact hhome e _ (a19 e he hv hm)
   · intro e he; rw [hhp, hhv]; exact a20 e he
   · intro w hw; rw [hhp]; exact a21 w hw
+  · intro e; rw [hhp, hhv]; exact a22 e
 
 /-- Nothing but program counters changed. -/
 theorem TInv.same {s s' : St} {t' : Tid} {pc' : PC} (h : TInv s t' pc')
@@ -136,7 +137,7 @@ theorem sinv_pc_only {s : St} {t : Tid} (h : SInv s) (Y : PC)
   · intro e he t0 h0 hc; exact h0 (h.upend t0 t e hc (hpend e he))
 
 macro "projs" : tactic =>
-  `(tactic| simp only [wPrev, wCur, wInner, posOf, lpos, ppos, adjOf, priv, pend, moving, holds, casNode, Purp.pos_fprev,
+  `(tactic| simp only [wPrev, wCur, wInner, posOf, lpos, ppos, adjOf, priv, pend, moving, holds, casNode, unval, Purp.pos_fprev,
       Purp.pos_ins, Purp.pos_find, Purp.pos_contains, Purp.pos_erase, Purp.elem_fprev, Purp.elem_ins, Purp.elem_find,
       Purp.elem_contains, Purp.elem_erase, Option.map_some, Option.map_none, Option.some.injEq, reduceCtorEq, false_implies, implies_true,
       forall_const, Prod.mk.injEq, and_imp, forall_eq', forall_eq, forall_apply_eq_imp_iff, false_or, or_false,
@@ -146,7 +147,7 @@ set_option hygiene false in
 /-- Unpack the facts of the stepping thread at its current program counter, and the chain order. -/
 macro "unpack" h:ident hpc:ident t:ident : tactic =>
   `(tactic| (have ht := ($h).thr $t; rw [$hpc:ident] at ht;
-             obtain ⟨a1,a2,a3,a4,a5,a6,a7,a8,a8',a9,a10,a11,a12,a13,a14,a15,a16,a17,a18,a19,a20,a21⟩ := ht;
+             obtain ⟨a1,a2,a3,a4,a5,a6,a7,a8,a8',a9,a10,a11,a12,a13,a14,a15,a16,a17,a18,a19,a20,a21,a22⟩ := ht;
              obtain ⟨o1,o2,o3,o4,o5,o6,o7,o8,o9,o10,o11,o12,o13,o14⟩ := ($h).ord;
              have hown := fun a => ($h).own a $t; simp only [$hpc:ident] at hown))
 
@@ -216,7 +217,7 @@ theorem sinv_concl {s : St} {t : Tid} {pu : Purp} {k : Int} {prev cur : Nat} {pv
   have ht := h.thr t
   obtain ⟨o1,o2,o3,o4,o5,o6,o7,o8,o9,o10,o11,o12,o13,o14⟩ := h.ord
   rcases hX with hX | ⟨w, hX⟩ <;> subst hX <;> rw [hpc] at ht <;>
-    obtain ⟨a1,a2,a3,a4,a5,a6,a7,a8,a8',a9,a10,a11,a12,a13,a14,a15,a16,a17,a18,a19,a20,a21⟩ := ht <;>
+    obtain ⟨a1,a2,a3,a4,a5,a6,a7,a8,a8',a9,a10,a11,a12,a13,a14,a15,a16,a17,a18,a19,a20,a21,a22⟩ := ht <;>
     rcases concl_cases pu k prev pv cur fnd eq with ⟨r, hpn, hc⟩ | ⟨e, rfl, rfl, hc⟩ | ⟨j, e, rfl, rfl, hc⟩ | ⟨j, rfl, hc⟩ |
       ⟨j, p, rfl, rfl, hp1, hp2, hc⟩ | ⟨j, p, rfl, rfl, hc⟩ | ⟨j, p, rfl, hc⟩ <;>
     rw [hc] <;> pconly h hpc
